@@ -40,6 +40,7 @@ import M4riProofs.GenTieAlg
 import M4riProofs.GenTieSlice
 import M4riProofs.GenTiePleFinal
 import M4riProofs.GenTieGlue
+import M4riProofs.GenTieClose2
 namespace M4ri.Props.C03
 open M4ri M4ri.BMat
 
@@ -172,5 +173,13 @@ theorem pluq_end_to_end (L1 L2 L3 : Nat) {A : BMat} (hA : A.WF) :
 /-! ### tie to the C text: `mzd_trtri_upper` (64-bit regime test, SSE2 split, three windows, the two translated TRSM routines, two recursive
     calls), `_mzd_pluq` and `_mzd_solve_left` are generated by vlib/ctrans.py on every check and proved equal to the model (GenTieGlue.lean) -/
 #check @M4ri.GenTieGlue.pluqFromPle_eq
+
+
+/-! ### THE RECURSION CLOSED on the C text (GenTieClose2.lean): `cPle n` = the generated recursive branch of `_mzd_ple` bound to itself `n` levels deep
+    (hand-written dispatcher for the zero-row test / regime test / base case, as in the model), closed TRSM as its callee: for every depth it
+    returns what `pleRec n` returns (rank, storage, P, Q), hence a valid PLE factorisation (`cPle_spec`) -/
+#check @M4ri.GenTieClose2.cPle_correct
+#check @M4ri.GenTieClose2.cPle_spec
+#check @M4ri.GenTieClose2.pleRecStep_congr
 
 end M4ri.Props.C03
